@@ -163,31 +163,41 @@ func (h265dp *h265Depacketizer) depacketizeFu(packet *Packet) (err error) {
 	return
 }
 
-func (h265dp *h265Depacketizer) writeFrame(rtpTimestamp uint32, frame *codec.Frame) error {
-	nalType := (frame.Payload[0] >> 1) & 0x3f
-	switch nalType {
-	case hevc.NalVps:
-		if len(h265dp.meta.Vps) == 0 {
-			h265dp.meta.Vps = frame.Payload
-		}
-	case hevc.NalSps:
-		if len(h265dp.meta.Sps) == 0 {
-			h265dp.meta.Sps = frame.Payload
-		}
-	case hevc.NalPps:
-		if len(h265dp.meta.Pps) == 0 {
-			h265dp.meta.Pps = frame.Payload
-		}
-	}
-
+// checkMetaReady 元数据（参数集）是否就绪；首次就绪时确定 dts 步长
+func (h265dp *h265Depacketizer) checkMetaReady() bool {
 	if !h265dp.metaReady {
 		if !hevc.MetadataIsReady(h265dp.meta) {
-			return nil
+			return false
 		}
 		if h265dp.meta.FixedFrameRate {
 			h265dp.dtsStep = float64(time.Second) / h265dp.meta.FrameRate
 		}
 		h265dp.metaReady = true
+	}
+	return true
+}
+
+func (h265dp *h265Depacketizer) writeFrame(rtpTimestamp uint32, frame *codec.Frame) error {
+	nalType := (frame.Payload[0] >> 1) & 0x3f
+	h265dp.checkMetaReady() // SDP 中已带齐参数集时，第一帧之前就已就绪
+	switch nalType {
+	// 元数据就绪之前，后到的参数集替换先前的：第一个带内参数集若是损坏的，不能让流永远无法就绪
+	case hevc.NalVps:
+		if len(h265dp.meta.Vps) == 0 || !h265dp.metaReady {
+			h265dp.meta.Vps = frame.Payload
+		}
+	case hevc.NalSps:
+		if len(h265dp.meta.Sps) == 0 || !h265dp.metaReady {
+			h265dp.meta.Sps = frame.Payload
+		}
+	case hevc.NalPps:
+		if len(h265dp.meta.Pps) == 0 || !h265dp.metaReady {
+			h265dp.meta.Pps = frame.Payload
+		}
+	}
+
+	if !h265dp.checkMetaReady() {
+		return nil
 	}
 
 	frame.Pts = h265dp.rtp2ntp(rtpTimestamp) + ptsDelay
